@@ -165,7 +165,9 @@ func corsBuild(cfg corsCfg, withFilter bool) corsWorld {
 	w.hnd = hnd
 	// a second service registered first; its last route and the first route of the root service
 	// have the same relative path
-	api := new(restful.WebService).Path("/api")
+	api := new(restful.WebService).Path("/api") // not dynamic: its Routes() is the route table itself
+	api.Route(api.PUT("/basket").To(hnd("PUT api/basket")))
+	api.Route(api.DELETE("/basket").To(hnd("DELETE api/basket")))
 	api.Route(api.GET("/reports").To(hnd("GET api/reports")))
 	c.Add(api)
 	ws.Route(ws.DELETE("/reports").To(hnd("DELETE reports")))
